@@ -184,6 +184,13 @@ impl ValueStack {
     }
 }
 
+#[cfg(feature = "verif-hooks")]
+impl ValueStack {
+    pub fn verif_capacity(&self) -> usize {
+        self.data.len()
+    }
+}
+
 #[cfg(test)]
 mod tests {
     use super::*;
